@@ -1,3 +1,26 @@
-From Verif Require Import Base.
-Theorem placeholder : True. Proof. exact I. Qed.
-Print Assumptions placeholder.
+(* C13 — each link has its own identity; calls and failures never cross links.
+   Model: Registry.v, the product of per-link endpoints; a step of one link is a step of that
+   component only.  What the links share (closure table, remotes table) is keyed by fresh ids. *)
+From Verif Require Import Base Link Registry.
+
+Theorem link_isolation :
+  forall v callss rs k c b rs' j,
+    rstep v callss rs k c b = Some rs' -> j <> k -> nth_error rs' j = nth_error rs j.
+Proof.
+  intros v callss rs k c b rs' j H Hne. unfold rstep in H.
+  destruct (nth_error rs k) as [s|]; [|discriminate].
+  destruct (lstep v (nth k callss []) s c b) as [s'|]; [|discriminate].
+  inversion H; subst. apply nth_error_upd_neq. auto.
+Qed.
+Print Assumptions link_isolation.
+
+(* in particular: whatever happens on link k (fault, cancellation, garbage, handler panic), the fatal
+   slot, pending calls and threads of every other link are the same before and after *)
+Theorem failure_isolated :
+  forall v callss rs k c b rs' j s,
+    rstep v callss rs k c b = Some rs' -> j <> k -> nth_error rs j = Some s ->
+    exists s', nth_error rs' j = Some s' /\ fatal s' = fatal s /\ bclosed s' = bclosed s /\ threads s' = threads s.
+Proof.
+  intros v callss rs k c b rs' j s H Hne Hs. exists s. rewrite (link_isolation _ _ _ _ _ _ _ _ H Hne). auto.
+Qed.
+Print Assumptions failure_isolated.
